@@ -84,6 +84,9 @@ func UnixMilli(ms int64) Time                     { return time.UnixMilli(ms) }
 func UnixMicro(us int64) Time                     { return time.UnixMicro(us) }
 func FixedZone(name string, off int) *Location    { return time.FixedZone(name, off) }
 func LoadLocation(name string) (*Location, error) { return time.LoadLocation(name) }
+func LoadLocationFromTZData(name string, data []byte) (*Location, error) {
+	return time.LoadLocationFromTZData(name, data)
+}
 
 // Now returns the virtual clock while an execution is active.
 //
